@@ -75,3 +75,8 @@ Definition ex_bad_obs_resubmit : list obs :=
 Definition ex_bad_obs_orphan : list obs :=
   [ ([ECheck []; EGen 0; ESubmit 0 Main true (Some 0)],
      [(PENDING, [0], 0); (INITIALIZED, [], 0); (INITIALIZED, [], 0); (INITIALIZED, [], 0)], SFAILURE) ].
+
+(** with zero submission attempts a step "fails to submit" without any submit call *)
+Definition ex_c_noattempts : cfg := {| throttle := 0; attempts := 0; dry := false |}.
+Definition ex_g1 : graph :=
+  [ {| parents := []; children := []; scheduled := true; has_restart := false; rlimit := 0 |} ].
